@@ -126,6 +126,16 @@ reg("C05",
     "runtime trace monitor + differential twin + availability probes + recorder", "DESIGN.md §4 C05")
 
 
+reg("C12",
+    "Exploration by runtime monitoring: async fn/mod/trait/impl-block cases with and without ?Send are compiled and run; probes "
+    "placed in a generic fn (where only the bounds the trait declares are visible) report at run time whether each method's future "
+    "is declared Send and what its Output type is, compared with the direct call; the C01/C06/C07 trace oracles decide that the "
+    "original async fn ran to completion once with the same result (futures are really suspended: polls >= 2); the recorder decides "
+    "that async_trait is re-applied verbatim and async fn kept; compile probes show a non-Send future is rejected by default and accepted with ?Send.",
+    "The declared-Send probe rests on rustc not leaking auto traits of opaque return types into generic contexts (self-tested in both polarities every run).",
+    "generic-context Send/Output probes + runtime trace oracles + recorder + compile probes", "DESIGN.md §4 C12")
+
+
 def manifest():
     hooks_commits = subprocess.run(["git", "-C", "/repo", "log", "--format=%H", "--grep=^verif hook"],
                                    stdout=subprocess.PIPE, text=True).stdout.split()
